@@ -9,6 +9,10 @@ ids = [json.loads(l)['id'] for l in (V / 'properties.jsonl').read_text().splitli
 TECH = 'contract-based deductive verification: own VC generator (pyvc) over the real .py/.pyx source, sidecar contracts, z3/cvc5'
 
 CLAIMED = {
+	'C11': dict(
+		text='The column table of the CSV exporter is verified cell by cell (label; reported taxon name/rank/ncbi_id/threshold; closest distance and genome description; next taxon fields; empty cell exactly when the taxon is absent), the header, the export loop (one row per item, in order, after the header), the JSON item mapping (query, predicted_taxon = reported taxon, next_taxon, closest_genomes), the taxon/genome key sets of the JSON and archive writers, and the writer options set by __init__. The quoting contract of the csv module is an obligation on csv.writer(**options): every field containing a character that ends a record for the reader must be quoted under the options in use - it FAILS for a bare carriage return (lineterminator is "\\n"), the string counter-model is replayed through the real exporter and csv.reader, and it is listed as a known finding. The read-back side (CSV/JSON parse, archive reader) is bounded only.',
+		note='Trusted: csv/json/attrs/cattrs/ORM contracts. Known finding: bare CR in a name splits the CSV row (known_findings.json). Bounded only: read-back of all three formats.',
+		design='3/C11'),
 	'C12': dict(
 		text='Metadata and marker glue is verified over an assumed h5py store model: write_metadata (all 64 None/value shapes: h5py.Empty exactly for None, JSON text for extra), read_metadata (Empty/missing -> None, text otherwise, extra through json.loads), _init_attrs (marker = 1, k, prefix string, then the metadata), and load_signatures_hdf5 (SignaturesFileError exactly when the first 8 bytes are not the HDF5 magic or the root group lacks the marker). The dataset side (ids/values/bounds on both write paths, filters, reading back, indexing) is covered by a BOUNDED stand-in: real dump/load/compare on generated collections plus six kinds of foreign files.',
 		note='Trusted: h5py store model, json round trip, open/read. Bounded only: _init_datasets, create, HDF5Signatures.__init__ reading, filters.',
